@@ -62,10 +62,9 @@ fn fresh() -> Framebuf<Buf2<u32>, Buf2<f32>> {
     Framebuf { color_buf: Buf2::<u32>::new((W as u32, 1)), depth_buf: Buf2::<f32>::new_with((W as u32, 1), |_, _| 0.0) }
 }
 
-/// D1: two arbitrary overlapping spans, arbitrary float depth start/step:
-/// A;B and B;A give identical depth and colour buffers unless some pixel has
-/// an exact depth tie; every pixel ends with the larger reciprocal depth among
-/// the fragments covering it and with that fragment's colour.
+/// D1a (relational): two arbitrary overlapping spans, arbitrary float depth
+/// start/step: A;B and B;A give identical depth buffers, and identical colour
+/// buffers unless some pixel has an exact depth tie.
 #[kani::proof]
 #[kani::unwind(5)]
 fn c06_two_spans_commute() {
@@ -81,29 +80,42 @@ fn c06_two_spans_commute() {
     for x in 0..W {
         let ia = x >= a.x0 && x < a.x0 + a.n;
         let ib = x >= b.x0 && x < b.x0 + b.n;
-        let (za, zb) = (z_at(&a, x.wrapping_sub(a.x0)), z_at(&b, x.wrapping_sub(b.x0)));
         let (d1, d2) = (f1.depth_buf[[x as u32, 0]], f2.depth_buf[[x as u32, 0]]);
         let (c1, c2) = (f1.color_buf[[x as u32, 0]], f2.color_buf[[x as u32, 0]]);
-        // the nearest fragment (larger reciprocal depth) that beats the cleared value 0
-        let mut best_z = 0.0f32;
-        let mut best_c = 0u32;
-        let mut tie = false;
-        if ia && za > best_z { best_z = za; best_c = rgba(a.col, 0, 0, 255).to_argb_u32(); }
-        if ib {
-            if ia && zb == za && za > 0.0 { tie = true; }
-            if zb > best_z { best_z = zb; best_c = rgba(b.col, 0, 0, 255).to_argb_u32(); }
-        }
+        assert!(d1 == d2 && !d1.is_nan());
+        let tie = ia && ib && z_at(&a, x - a.x0) == z_at(&b, x - b.x0);
+        if !tie { assert!(c1 == c2); }
         if ia && ib { overlap = true; }
-        if !tie {
-            assert!(d1 == best_z && d2 == best_z);
-            assert!(c1 == best_c && c2 == best_c);
-        } else {
-            assert!(d1 == best_z && d2 == best_z); // depth is order independent even on ties
-        }
-        assert!(!d1.is_nan());
     }
     kani::cover!(overlap, "spans overlap");
     kani::cover!(a.n == 3 && b.n == 3 && a.dz > 0.0 && b.dz < 0.0, "interpenetrating full spans");
+}
+
+/// D1b: after drawing two spans every pixel holds the larger reciprocal depth
+/// among the fragments covering it (and the cleared value 0), with that
+/// fragment's colour; a fragment that fails the test writes neither.
+#[kani::proof]
+#[kani::unwind(5)]
+fn c06_nearest_wins() {
+    let (a, b) = (any_span(), any_span());
+    let ctx = Context::default();
+    let mut f1 = fresh();
+    draw(&mut f1, &a, &ctx);
+    draw(&mut f1, &b, &ctx);
+    let x: usize = kani::any();
+    kani::assume(x < W);
+    let ia = x >= a.x0 && x < a.x0 + a.n;
+    let ib = x >= b.x0 && x < b.x0 + b.n;
+    let za = if ia { z_at(&a, x - a.x0) } else { 0.0 };
+    let zb = if ib { z_at(&b, x - b.x0) } else { 0.0 };
+    let (d, c) = (f1.depth_buf[[x as u32, 0]], f1.color_buf[[x as u32, 0]]);
+    let (ca, cb) = (rgba(a.col, 0, 0, 255).to_argb_u32(), rgba(b.col, 0, 0, 255).to_argb_u32());
+    // a was drawn first: it wins ties against b
+    if ia && za > 0.0 && !(ib && zb > za) { assert!(d == za && c == ca); }
+    if ib && zb > 0.0 && zb > (if ia { za } else { 0.0 }) { assert!(d == zb && c == cb); }
+    if !(ia && za > 0.0) && !(ib && zb > 0.0) { assert!(d == 0.0 && c == 0); }
+    kani::cover!(ia && ib && zb > za && za > 0.0, "second span nearer");
+    kani::cover!(ia && ib && zb < za, "second span hidden");
 }
 
 /// D4: Context::depth_test for every Option<Ordering> and every pair of
